@@ -42,6 +42,7 @@ type covRec struct {
 	normBad  string // first reason why a store is not a normalisation copy
 	normSrc  *eng.Term
 	iterBad  string    // first per-iteration violation (chains / submits)
+	wrapBad  string    // an exec outcome wrapped without the is-it-a-Result test
 	emptyOf  *eng.Term // the loop ran zero iterations because this slice was empty
 	storePos string
 }
@@ -70,7 +71,7 @@ type batchState struct {
 func (s batchState) Key() string {
 	var sb strings.Builder
 	for _, r := range s.recs {
-		fmt.Fprintf(&sb, "[%s|%s|%d|%v%v%v|%s|%d|%d,%d|%v|%s|%s|%s|%s|%s|%s]", r.loop, r.base.Key(), r.c, r.startOK, r.stored, r.skipped, r.broken, r.done, r.chains, r.submits, r.failed, r.resBad, r.fillBad, r.normBad, r.normSrc.Key()+"/"+r.emptyOf.Key(), r.iterBad, r.storePos)
+		fmt.Fprintf(&sb, "[%s|%s|%d|%v%v%v|%s|%d|%d,%d|%v|%s|%s|%s|%s|%s|%s]", r.loop, r.base.Key(), r.c, r.startOK, r.stored, r.skipped, r.broken, r.done, r.chains, r.submits, r.failed, r.resBad, r.fillBad, r.normBad, r.normSrc.Key()+"/"+r.emptyOf.Key(), r.iterBad+"/"+r.wrapBad, r.storePos)
 	}
 	fmt.Fprintf(&sb, "%v,%d,%d,%s,%v,%v,%s,%v,%v,%s,%s|", s.chainOpen, s.inTask, s.held, s.flagRead.Key(), s.flagReadOK, s.flagSet, s.pool.Key(), s.outstanding, s.poolEvents || s.submitted, s.conc.Key(), s.execIdx.Key())
 	for _, b := range s.execBases {
@@ -573,6 +574,9 @@ func (m *BatchMon) onStore(c *eng.Ctx, s batchState, life lifeState, ev *eng.Eve
 	case known && !isErr:
 		if !(chainRan && lastOK && valT == life.lastVal) {
 			note(&r.resBad, "slot receives the success value "+valT.Pretty()+" although it is not the result of this item's exec phase: an item that never ran would look successful")
+		} else if m.R.Result != nil && c.Eval(eng.TAOk(valT, m.R.Result)) != eng.TriFalse {
+			// the exec outcome may itself be a Result (an error Result handed through by a function-style node)
+			note(&r.wrapBad, "the item's exec outcome "+valT.Pretty()+" is wrapped into a new Result without first testing whether it already is a Result: an error Result returned by a function-style exec would reach post wrapped a second time, as a non-error")
 		}
 	case known && isErr:
 		r.failed = true
@@ -656,6 +660,7 @@ func (m *BatchMon) onPost(c *eng.Ctx, s batchState, life lifeState, ev *eng.Even
 	chk("C06.R2", "post", rr.startOK, "the first iteration does not write slot 0")
 	chk("C06.R2,C07.R5,C09.R4,C11.R3", "post", rr.resBad == "", rr.resBad)
 	chk("C06.R5,C07.R2", "post", rr.iterBad == "", rr.iterBad)
+	chk("C17.R1,C06.R2", "post", rr.wrapBad == "", rr.wrapBad)
 	if rr.done == 1 {
 		chk("C09.R3,C11.R3", "post", true, "")
 		if !m.Case.Stop {
